@@ -59,6 +59,7 @@ def specs(
     own=False,
     dotted=False,
     flags=False,
+    selfref=False,
 ):
     n_pkgs = draw(st.integers(1, max_pkgs))
     n_algs = draw(st.integers(min_algs, max_algs))
@@ -127,6 +128,16 @@ def specs(
                           if where and draw(st.integers(0, 2)) == 0 else None),
             }
         )
+    if selfref:
+        # an algorithm may read back its own previous output (it lists one
+        # of its own values among its inputs, as Test/ae's feedback models
+        # do); it needs another input to be reachable in the task tree
+        for idx, a in enumerate(algs):
+            if a['inputs'] and draw(st.integers(0, 3)) == 0:
+                j = draw(st.integers(0, len(a['svs']) - 1))
+                k = draw(st.integers(0, len(a['svs'][j]['vals']) - 1))
+                a['inputs'].append({'to': idx, 'level': 'val', 'sv': j,
+                                    'val': k})
     if feedback:
         for idx in range(n_algs - 1):
             if draw(st.integers(0, 5)) == 0:
@@ -223,6 +234,8 @@ class RefGraph:
         self.parents = {t: set() for t in self.tag}
         self.children = {t: set() for t in self.tag}
         for p, c in self.aedges:
+            if p == c:
+                continue  # an algorithm reading back its own output
             self.parents[c].add(p)
             self.children[p].add(c)
         self.ancestors = {t: self._closure(t, self.parents) for t in self.tag}
@@ -506,6 +519,7 @@ def sources(spec, base, viol=None):
                 for n, r in enumerate(refs):
                     tp = spec['pkgs'][algs[r['to']]['pkg']]
                     bot.append(
+                        f'            i{n} = self' if r['to'] == i else
                         f'            i{n} = {base}.{tp}.bot.Alg_{r["to"]}()'
                     )
                     good = (f'            self.{cache}.append('
